@@ -71,9 +71,11 @@ class State:
         value = float(np.asarray(value).reshape(-1)[0]) if np.size(value) == 1 else float("nan")
         tol = 1e-9 * max(1.0, abs(ref))
         if dist == "wasserstein":
-            tol = 1e-7 * max(1.0, abs(ref), float(np.max(np.abs(A))))
+            # relative to the cost matrix' own magnitude (LP solver accuracy 1e-7)
+            tol = 1e-7 * max(abs(ref), float(np.max(np.abs(A))))
         if dist == "mmd":
-            tol += _gem.mmd_tolerance(gem, P, A)
+            # relative to the kernel's own magnitude: the score scales like sqrt(max|A|)
+            tol = 1e-9 * max(abs(ref), float(np.sqrt(np.max(np.abs(A))))) + _gem.mmd_tolerance(gem, P, A)
         ctx.count("compared")
         ctx.count("compared:" + dist)
         ctx.count("compared:" + ("ovo" if gem.ovo else "ova"))
@@ -203,7 +205,7 @@ def run_case(case, ctx, st):
     if case["kind"] == "direct":
         st.mode = "direct"
         for idx in range(case["i0"], case["i1"]):
-            info, gem, P, L, A, X = _gem.direct_case(case["seed"], ID, idx)
+            info, gem, P, L, A, X = _gem.direct_case(case["seed"], ID, idx, big=True, big_n=48, big_wass=16)
             ctx.case = {"kind": "direct", "seed": case["seed"], "i0": idx, "i1": idx + 1, "info": info}
             ctx.count("direct_calls")
             gem(P, A)
